@@ -88,6 +88,21 @@ struct SBase {  // owns heap memory: a lifetime error changes the output or cras
 #endif
   typedef typename std::conditional<TR, std::true_type, std::false_type>::type trivially_relocatable;
 };
+// elements whose size is not a divisor / multiple of a pointer (how many of them share the bytes of the heap pointer)
+template <unsigned SZ>
+struct B {
+  unsigned char c[SZ];
+  B() { for (unsigned i = 0; i < SZ; ++i) c[i] = 0; }
+  B(int v) { for (unsigned i = 0; i < SZ; ++i) c[i] = static_cast<unsigned char>((v >> (8 * (i % 2))) & 0xFF); }
+  int value() const { return c[0] | (SZ > 1 ? c[1] << 8 : 0); }
+  bool operator==(const B &o) const { return value() == o.value(); }
+  bool operator<(const B &o) const { return value() < o.value(); }
+  bool operator>(const B &o) const { return value() > o.value(); }
+#if __cplusplus >= 202002L
+  std::strong_ordering operator<=>(const B &o) const { return value() <=> o.value(); }
+#endif
+};
+template <unsigned SZ> inline int val(const B<SZ> &v) { return v.value(); }
 typedef SBase<false> S;
 typedef SBase<true> SR;
 inline int val(int v) { return v; }
@@ -453,7 +468,12 @@ int main(int argc, char **argv) {
       snprintf(head, sizeof head, "=== script %ld\n", h);
       g_out += head;
       if (sec == 0) {
-        switch (h % 8) {
+        switch (h % 13) {
+          case 8: vector_script<amc::SmallVector<B<3>, 3>, 20>("B3,3", rng, nops); break;
+          case 9: vector_script<amc::SmallVector<B<5>, 2>, 20>("B5,2", rng, nops); break;
+          case 10: vector_script<amc::SmallVector<B<7>, 2, std::allocator<B<7> >, unsigned char>, 20>("B7,2,u8", rng, nops); break;
+          case 11: vector_script<amc::SmallVector<B<6>, 5>, 20>("B6,5", rng, nops); break;
+          case 12: vector_script<amc::SmallVector<B<3>, 11, amc::allocator<B<3> >, unsigned short>, 30>("B3,11,u16", rng, nops); break;
           case 0: vector_script<amc::vector<int>, 40>("int", rng, nops); break;
           case 1: vector_script<amc::SmallVector<S, 3>, 24>("S,3", rng, nops); break;
           case 2: vector_script<amc::FixedCapacityVector<SR, 8>, 8>("SR,fixed8", rng, nops); break;
